@@ -856,3 +856,242 @@ def unit_mul(layout, timeout_ms=20000, canary=False):
     r = run_unit(nm, MulHarness(tuple(layout), canary=canary), functions=[(MODULE, "NumberOrderedForm.__mul__")], timeout_ms=timeout_ms)
     r.bounded.append(f"mode layout {layout} (number of modes concrete; term powers symbolic)")
     return r
+
+
+# ==================================================================================================
+# _eval_adjoint: the adjoint with respect to the Fock inner product.  In the unnormalised basis used here
+# (|n) has squared norm prod_bosons n_j!) this reads, for every pair of occupation states,
+#       <a| T' |b> * ||b||^2 ... i.e.   amp_{T'}(a -> b) * prod_j ff(b_j, s_j)  =  conj(amp_T(b -> a)) * prod_j ff(a_j, r_j)
+# where T takes |b) to |a) (s_j boson quanta annihilated, r_j created): b_j!/nu_j! = ff(b_j, s_j), a_j!/nu_j! = ff(a_j, r_j).
+# Coefficients are real-valued functions in this model (coeff.adjoint() = coeff).
+# ==================================================================================================
+
+class AdjointHarness(MultiplyOpHarness):
+    def __init__(self, layout, canary=False):
+        self.layout, self.canary = tuple(layout), canary
+        self.op_index = 0
+
+    def __call__(self, eng):
+        self.eng = eng
+        eng.int_is_eq = True
+        layout, k = self.layout, len(self.layout)
+        node = frontend.find(MODULE, "NumberOrderedForm._eval_adjoint")
+        fock = Fock(layout)
+        harness = self
+        p = [eng.fresh(f"p{j}") for j in range(k)]
+        F = z3.Function("F", *([z3.IntSort()] * k), z3.RealSort())
+        n = [z3.Int(f"n{j}") for j in range(k)]
+        for j in range(k):
+            if layout[j] in ("spin", "fermion"):
+                eng.assume(z3.And(p[j] >= -1, p[j] <= 1, n[j] >= 0, n[j] <= 1))
+        coef = Coef(lambda occ: F(*occ), "f")
+        self.n = n
+        seen = []
+
+        class Terms(Model):
+            def m_comprehension(s, e, ce, g, env):
+                cenv = Env(env)
+                cenv.is_comprehension = True
+                e.assign(g.target, STup([STup([SI(x) for x in p]), coef]), cenv)
+                if g.ifs:
+                    raise Unsupported("filtered adjoint")
+                seen.append(1)
+                return STup([e.eval(ce.elt, cenv)], None, True)
+        ops = STup([OpModel(kd, i) for i, kd in enumerate(layout)])
+
+        class Self(Model):
+            def m_getattr(s, e, name):
+                if name == "args":
+                    return STup([ops, Terms()])
+                if name == "operators":
+                    return ops
+                raise Unsupported(f"self.{name}")
+        built = []
+
+        def cls_call(e, o, terms, validate=True):
+            built.append((o, terms))
+            return NofResult(o, terms)
+        eng.globals.update({"type": Builtin("type", lambda e, x: Builtin("cls", cls_call))})
+        res = eng.call(Closure(node, Env(None, {}), "_eval_adjoint"), [Self()], {})
+        ok = isinstance(res, NofResult) and len(built) == 1 and built[0][0] is ops and len(seen) == 1
+        eng.oblige("returns-a-form-on-the-same-operators-with-one-term-per-term", z3.BoolVal(ok))
+        if not ok:
+            return
+        terms = eng.as_seq(built[0][1])
+        t = eng.as_seq(terms.items[0])
+        newp = [zi(x) for x in eng.as_seq(t.items[0]).items]
+        newcoef = Coef.lift(t.items[1])
+        eng.oblige("powers-negated", z3.And(*[a == -b for a, b in zip(newp, p)]))
+        # T : |n) -> |a)
+        occ_a, amp_T = fock.apply_term(list(n), z3.RealVal(1), p, coef)
+        # T': |a) -> ?
+        occ_b, amp_Tp = fock.apply_term(list(occ_a), z3.RealVal(1), newp, newcoef)
+        wb = z3.RealVal(1)
+        wa = z3.RealVal(1)
+        for j in range(k):
+            if layout[j] == "boson":
+                s = z3.If(p[j] > 0, p[j], 0)
+                r = z3.If(p[j] < 0, -p[j], 0)
+                wb = wb * z3.ToReal(ff(n[j], s))
+                wa = wa * z3.ToReal(ff(occ_a[j], r))
+        lhs, rhs = amp_Tp * wb, amp_T * wa
+        if self.canary:
+            rhs = -rhs
+        # matrix elements are between physical states: binary occupations of the image state lie in {0, 1}
+        phys = [z3.And(occ_a[j] >= 0, occ_a[j] <= 1) for j in range(k) if layout[j] in ("spin", "fermion")]
+        self.prove(eng, "adjoint-returns-to-the-initial-state", z3.And(*[x == y for x, y in zip(occ_b, n)]), phys)
+        self.prove(eng, "adjoint-amplitude", lhs == rhs, phys,
+                   detail="<a|T'|b> ||b||^2 = conj(<b|T|a>) ||a||^2 in the unnormalised occupation basis, for every pair of states")
+
+
+def unit_adjoint(layout, timeout_ms=20000, canary=False):
+    nm = f"number_ordered_form:_eval_adjoint[{'+'.join(layout)}]" + ("[canary]" if canary else "")
+    r = run_unit(nm, AdjointHarness(tuple(layout), canary=canary), functions=[(MODULE, "NumberOrderedForm._eval_adjoint")], timeout_ms=timeout_ms)
+    r.bounded.append(f"mode layout {list(layout)} (number of modes concrete; powers, occupations, coefficient functions symbolic; real coefficients)")
+    return r
+
+
+# ==================================================================================================
+# __neg__ (per-term comprehension) and __add__ (accumulation into a dict keyed by powers)
+# ==================================================================================================
+
+def unit_neg(layout, timeout_ms=20000):
+    layout = tuple(layout)
+
+    def harness(eng):
+        eng.int_is_eq = True
+        k = len(layout)
+        node = frontend.find(MODULE, "NumberOrderedForm.__neg__")
+        fock = Fock(layout)
+        p = [eng.fresh(f"p{j}") for j in range(k)]
+        F = z3.Function("F", *([z3.IntSort()] * k), z3.RealSort())
+        n = [z3.Int(f"n{j}") for j in range(k)]
+        coef = Coef(lambda occ: F(*occ), "f")
+        ops = STup([OpModel(kd, i) for i, kd in enumerate(layout)])
+        seen, built = [], []
+
+        class Terms(Model):
+            def m_comprehension(s, e, ce, g, env):
+                cenv = Env(env)
+                cenv.is_comprehension = True
+                e.assign(g.target, STup([STup([SI(x) for x in p]), coef]), cenv)
+                if g.ifs:
+                    raise Unsupported("filtered negation")
+                seen.append(1)
+                return STup([e.eval(ce.elt, cenv)], None, True)
+
+        class Self(Model):
+            def m_getattr(s, e, name):
+                if name == "args":
+                    return STup([ops, Terms()])
+                if name == "operators":
+                    return ops
+                raise Unsupported(f"self.{name}")
+
+        def cls_call(e, o, terms, validate=True):
+            built.append((o, terms))
+            return NofResult(o, terms)
+        eng.globals.update({"type": Builtin("type", lambda e, x: Builtin("cls", cls_call))})
+        res = eng.call(Closure(node, Env(None, {}), "__neg__"), [Self()], {})
+        ok = isinstance(res, NofResult) and len(built) == 1 and built[0][0] is ops and len(seen) == 1
+        eng.oblige("returns-a-form-on-the-same-operators-with-one-term-per-term", z3.BoolVal(ok))
+        if not ok:
+            return
+        t = eng.as_seq(eng.as_seq(built[0][1]).items[0])
+        newp = [zi(x) for x in eng.as_seq(t.items[0]).items]
+        newcoef = Coef.lift(t.items[1])
+        occ1, amp1 = fock.apply_term(list(n), z3.RealVal(1), p, coef)
+        occ2, amp2 = fock.apply_term(list(n), z3.RealVal(1), newp, newcoef)
+        eng.oblige("same-final-state", z3.And(*[a == b for a, b in zip(occ1, occ2)]))
+        eng.oblige("amplitude-negated", amp2 == -amp1, detail="(-x)|n) = -(x|n)) for every occupation state")
+    r = run_unit(f"number_ordered_form:__neg__[{'+'.join(layout)}]", harness, functions=[(MODULE, "NumberOrderedForm.__neg__")], timeout_ms=timeout_ms)
+    r.bounded.append(f"mode layout {list(layout)}")
+    return r
+
+
+def unit_add(layout, timeout_ms=20000, canary=False):
+    """__add__: both operands are brought to a common operator list by _combine_operators (callee, assumed denotation-preserving: battery),
+    then every term of either operand adds its coefficient to the entry of its own powers and touches no other entry; the result is built
+    from that dictionary on the common operator list.  Since a term's denotation is linear in its coefficient, the result denotes the sum."""
+    layout = tuple(layout)
+
+    def harness(eng):
+        eng.int_is_eq = True
+        k = len(layout)
+        node = frontend.find(MODULE, "NumberOrderedForm.__add__")
+        fock = Fock(layout)
+        n = [z3.Int(f"n{j}") for j in range(k)]
+        ops = STup([OpModel(kd, i) for i, kd in enumerate(layout)])
+        loops = []
+
+        class Acc(Model):
+            """defaultdict(lambda: Zero) seen by one iteration: the current entry of any key is an arbitrary coefficient"""
+            def __init__(s):
+                s.reads, s.writes = [], []
+
+            def m_getitem(s, e, key):
+                C = z3.Function(f"C{len(s.reads)}", *([z3.IntSort()] * k), z3.RealSort())
+                c = Coef(lambda occ, C=C: C(*occ), "current")
+                s.reads.append((key, c))
+                return c
+
+            def m_setitem(s, e, key, val):
+                s.writes.append((key, val))
+        acc = Acc()
+
+        class Terms(Model):
+            def __init__(s, tag):
+                s.tag = tag
+
+            def m_for(s, e, stmt, env):
+                p = [e.fresh(f"p_{s.tag}{j}") for j in range(k)]
+                F = z3.Function(f"F_{s.tag}", *([z3.IntSort()] * k), z3.RealSort())
+                coef = Coef(lambda occ: F(*occ), "f")
+                r0, w0 = len(acc.reads), len(acc.writes)
+                e.assign(stmt.target, STup([STup([SI(x) for x in p]), coef]), env)
+                try:
+                    e.exec_block(stmt.body, env)
+                except (_Cont, _Brk):
+                    raise Unsupported("continue / break in the accumulation loop")
+                loops.append(s.tag)
+                rd, wr = acc.reads[r0:], acc.writes[w0:]
+                e.oblige(f"{s.tag}:one-entry-read-and-written-per-term", z3.BoolVal(len(rd) == 1 and len(wr) == 1))
+                if len(rd) == 1 and len(wr) == 1:
+                    kr = [zi(x) for x in e.as_seq(rd[0][0]).items]
+                    kw = [zi(x) for x in e.as_seq(wr[0][0]).items]
+                    e.oblige(f"{s.tag}:entry-is-the-one-of-the-terms-powers", z3.And(*[a == b for a, b in zip(kr, p)], *[a == b for a, b in zip(kw, p)]))
+                    newc = Coef.lift(wr[0][1])
+                    goal = newc.at(n) == rd[0][1].at(n) + coef.at(n)
+                    if canary and s.tag == "other":
+                        goal = newc.at(n) == rd[0][1].at(n) - coef.at(n)
+                    e.oblige(f"{s.tag}:coefficient-added-to-the-entry", goal, detail="new entry = old entry + coefficient of the term, as functions of the occupations")
+
+        class Operand(Model):
+            def __init__(s, tag):
+                s.tag = tag
+
+            def m_getattr(s, e, name):
+                if name == "args":
+                    return STup([ops, Terms(s.tag)])
+                if name == "operators":
+                    return ops
+                if name == "_combine_operators":
+                    return Builtin("_combine_operators", lambda e2, other: STup([s, other]))
+                raise Unsupported(f"{s.tag}.{name}")
+
+            def m_isinstance(s, e, c):
+                return c == "NumberOrderedForm"
+        a, b = Operand("self"), Operand("other")
+        built = []
+
+        def cls_call(e, o, terms, validate=True):
+            built.append((o, terms))
+            return NofResult(o, terms)
+        eng.globals.update({"type": Builtin("type", lambda e, x: Builtin("cls", cls_call)), "NumberOrderedForm": TypeObj("NumberOrderedForm"),
+                            "defaultdict": Builtin("defaultdict", lambda e, f: acc), "Zero": 0})
+        res = eng.call(Closure(node, Env(None, {}), "__add__"), [a, b], {})
+        eng.oblige("both-operands-are-accumulated-once", z3.BoolVal(sorted(loops) == ["other", "self"]), detail=repr(loops))
+        eng.oblige("result-built-from-the-accumulated-entries-on-the-common-operators", z3.BoolVal(isinstance(res, NofResult) and len(built) == 1 and built[0][0] is ops and built[0][1] is acc))
+    r = run_unit(f"number_ordered_form:__add__[{'+'.join(layout)}]" + ("[canary]" if canary else ""), harness, functions=[(MODULE, "NumberOrderedForm.__add__")], timeout_ms=timeout_ms)
+    r.bounded.append(f"mode layout {list(layout)}")
+    return r
